@@ -204,13 +204,20 @@ class SqliteDLQMixin:
         """
         conn = self._get_connection()
 
-        # Find messages that have exceeded max_attempts
+        # Find messages that have exceeded max_attempts: the limit stored with
+        # the row, or the queue's own limit, which is the one poll_one() applies.
+        # Rows written by a transactional push or a DLQ replay carry the default
+        # limit, so under a queue configured with a lower one they would stop
+        # being delivered without ever being dead-lettered.
+        queue_limit = getattr(self, "max_attempts", None)
         result = conn.execute(
             f"""
             SELECT id, message_type, attempts
             FROM {self.table_name}
             WHERE attempts >= max_attempts
+               OR (:queue_limit IS NOT NULL AND attempts >= :queue_limit)
             """,
+            {"queue_limit": queue_limit},
         )
         rows = result.fetchall()
 
